@@ -15,7 +15,7 @@ case "$mut" in
   none) ;;
   *) git -C "$SBX/repo" apply "$mut" || { echo "patch does not apply"; rm -rf "$SBX"; exit 2; } ;;
 esac
-rsync -a --exclude .work --exclude replays --exclude 'seeded/.runs' /verif/ "$SBX/verif/"
+rsync -a -q --exclude .work --exclude replays --exclude 'seeded/.runs' /verif/ "$SBX/verif/" 2>/dev/null
 rc_all=0
 for id in "$@"; do
   unshare -m sh -c "mount --bind $SBX/repo /repo && mount --bind $SBX/verif /verif && cd /verif && ./check $id ${VERIF_TIER:+--tier $VERIF_TIER}" > "$out/$id.log" 2>&1
